@@ -51,6 +51,16 @@
 (*                     (interface, concrete type) pair, how a value of the *)
 (*                     concrete type encodes through the interface and how *)
 (*                     its encoding decodes into the interface.            *)
+(*   Mode = "sizes"    a damaged record / crafted proof node is composed    *)
+(*                     (SzForm, SzSize, SzRest, SzEmbed): one header of     *)
+(*                     every form (short / long with 1..8 size bytes,       *)
+(*                     string / list) whose size field runs over the        *)
+(*                     boundary lattice of the arithmetic done on it (0, 1, *)
+(*                     55, 56, 2^8j-1, 2^8k-10..2^8k-1, 2^(8k-1), ...),     *)
+(*                     followed by 0, 1, size-1, size, size+1 bytes, alone  *)
+(*                     or as an element of a trie node; the label carries   *)
+(*                     what Split / CountValues / trie.decodeNode and the   *)
+(*                     Stream decoder return (SizesInv).                    *)
 (* Labels are printed as JSON (ACTION_CONSTRAINT Emit) and replayed on the *)
 (* real code by harness/props/c11.                                         *)
 (*                                                                         *)
@@ -67,11 +77,11 @@
 (***************************************************************************)
 EXTENDS Integers, Sequences, FiniteSets, TLC, Json
 
-CONSTANTS Mode,      \* "bytes" | "values" | "registry"
+CONSTANTS Mode,      \* "bytes" | "values" | "registry" | "sizes"
           Wide,      \* TRUE: the larger alphabets / value universes (thorough tier)
           AsCoded,   \* FALSE: interface decoding as designed; TRUE: as coded (rv.Set without an assignability check)
           Extra,     \* bytes mode: additional chunks allowed beyond the per-target default
-          Targets    \* bytes mode: the target types explored by this run (the harness runs several groups in parallel)
+          Targets    \* bytes mode: the target types explored by this run (the harness runs several groups in parallel); sizes mode: the header forms ("str", "list")
 
 (* ======================================================================= *)
 (* bytes and headers                                                       *)
@@ -383,27 +393,72 @@ DecodeBytesWithType(T, df, s, st) ==
        IF r.ok /\ r.p < Len(s) THEN Verdict(Fail("more_than_one")) ELSE Verdict(r)
 
 (* ---- raw.go: Split / CountValues --------------------------------------- *)
-RawKind(b) ==
-  LET RF(cl) == [ok |-> FALSE, c |-> cl, kind |-> "", ts |-> 0, cs |-> 0]
-      Chk(kind, ts, cs) == IF cs > Len(b) - ts THEN RF("value_too_large") ELSE [ok |-> TRUE, c |-> "", kind |-> kind, ts |-> ts, cs |-> cs]
-      Long(kind, n) == IF n > Len(b) - 1 THEN RF("unexpected_eof")
-                       ELSE LET sz == SubSeq(b, 2, n + 1)  v == BEsat(sz) IN
+\* readKind(b[p:]): the header at offset p of b (p bytes already consumed by the caller's loop)
+RawKindAt(b, p) ==
+  LET L == Len(b) - p
+      RF(cl) == [ok |-> FALSE, c |-> cl, kind |-> "", ts |-> 0, cs |-> 0]
+      Chk(kind, ts, cs) == IF cs > L - ts THEN RF("value_too_large") ELSE [ok |-> TRUE, c |-> "", kind |-> kind, ts |-> ts, cs |-> cs]
+      Long(kind, n) == IF n > L - 1 THEN RF("unexpected_eof")
+                       ELSE LET sz == SubSeq(b, p + 2, p + n + 1)  v == BEsat(sz) IN        \* v saturates at Cap: larger than any input
                             IF v < 56 \/ sz[1] = 0 THEN RF("canon_size") ELSE Chk(kind, n + 1, v)
-  IN IF Len(b) = 0 THEN RF("unexpected_eof")
-     ELSE LET h == b[1] IN
+  IN IF L <= 0 THEN RF("unexpected_eof")
+     ELSE LET h == b[p + 1] IN
           IF h < 128 THEN Chk("byte", 0, 1)
-          ELSE IF h < 184 THEN (IF h = 129 /\ Len(b) > 1 /\ b[2] < 128 THEN RF("canon_size") ELSE Chk("string", 1, h - 128))
+          ELSE IF h < 184 THEN (IF h = 129 /\ L > 1 /\ b[p + 2] < 128 THEN RF("canon_size") ELSE Chk("string", 1, h - 128))
           ELSE IF h < 192 THEN Long("string", h - 183)
           ELSE IF h < 248 THEN Chk("list", 1, h - 192)
           ELSE Long("list", h - 247)
+RawKind(b) == RawKindAt(b, 0)
 SplitOf(b) == LET k == RawKind(b) IN
               IF ~k.ok THEN [ok |-> FALSE, c |-> k.c, kind |-> "", content |-> <<>>, rest |-> b]
               ELSE [ok |-> TRUE, c |-> "", kind |-> k.kind, content |-> SubSeq(b, k.ts + 1, k.ts + k.cs), rest |-> SubSeq(b, k.ts + k.cs + 1, Len(b))]
-RECURSIVE CountAcc(_, _)
-CountAcc(b, n) == IF Len(b) = 0 THEN [ok |-> TRUE, n |-> n, c |-> ""]
-                  ELSE LET k == RawKind(b) IN
-                       IF ~k.ok THEN [ok |-> FALSE, n |-> 0, c |-> k.c] ELSE CountAcc(SubSeq(b, k.ts + k.cs + 1, Len(b)), n + 1)
-CountOf(b) == CountAcc(b, 0)
+\* CountValues: "for ; len(b) > 0; i++ { readKind(b); b = b[tagsize+size:] }"; steps = iterations of the loop
+RECURSIVE CountFrom(_, _, _)
+CountFrom(b, p, n) == IF p >= Len(b) THEN [ok |-> TRUE, n |-> n, c |-> "", steps |-> n]
+                      ELSE LET k == RawKindAt(b, p) IN
+                           IF ~k.ok THEN [ok |-> FALSE, n |-> 0, c |-> k.c, steps |-> n + 1] ELSE CountFrom(b, p + k.ts + k.cs, n + 1)
+CountFull(b) == CountFrom(b, 0, 0)
+CountOf(b) == LET x == CountFull(b) IN [ok |-> x.ok, n |-> x.n, c |-> x.c]
+\* what keeps Split's slices inside b and CountValues moving: an accepted header describes a non-empty
+\* item that ends inside the input -- at every offset the loop of CountValues can stand at
+RawProgressAt(b, p) == LET k == RawKindAt(b, p) IN k.ok => (k.ts + k.cs >= 1 /\ p + k.ts + k.cs <= Len(b))
+RawProgress(b) == \A p \in 0..Len(b) : RawProgressAt(b, p)
+
+(* ---- libs/trie/node.go: decodeNode, the storage-side client of raw.go ---- *)
+\* decodeNode = SplitList, CountValues of the content (2: short node, 17: full node), then SplitString /
+\* Split per element (decodeShort, decodeFull, decodeRef).  The result is "a node" or an error; class
+\* "panic": compactToHex slices base[2:] of a one-nibble base when the key of a short node is the empty
+\* string (as coded; as designed -- and in go-ethereum -- an empty compact key is an empty key).
+NOk == [ok |-> TRUE, c |-> ""]
+NErr(cl) == [ok |-> FALSE, c |-> cl]
+ValOf(b) == LET v == SplitOf(b) IN                                          \* SplitString(b): a single byte counts as a string
+            IF ~v.ok THEN NErr(v.c) ELSE IF v.kind = "list" THEN NErr("expected_string") ELSE NOk
+RECURSIVE NodeOf(_, _), RefOf(_, _), FullOf(_, _, _)
+ShortOf(e, coded) ==                                                        \* decodeShort
+  LET k == SplitOf(e) IN
+  IF ~k.ok THEN NErr(k.c) ELSE IF k.kind = "list" THEN NErr("expected_string")
+  ELSE IF Len(k.content) = 0 THEN (IF coded THEN NErr("panic") ELSE RefOf(k.rest, coded).r)
+  ELSE IF k.content[1] \div 16 >= 2 THEN ValOf(k.rest)                      \* hasTerm(compactToHex(kbuf)): flag nibble 2 or 3
+  ELSE RefOf(k.rest, coded).r
+RefOf(b, coded) ==                                                          \* decodeRef
+  LET sp == SplitOf(b) IN
+  IF ~sp.ok THEN [r |-> NErr(sp.c), rest |-> b]
+  ELSE IF sp.kind = "list" THEN
+         IF Len(b) - Len(sp.rest) > 32 THEN [r |-> NErr("oversized_ref"), rest |-> b]
+         ELSE [r |-> NodeOf(b, coded), rest |-> sp.rest]                    \* embedded node
+  ELSE IF Len(sp.content) = 0 \/ Len(sp.content) = 32 THEN [r |-> NOk, rest |-> sp.rest]
+  ELSE [r |-> NErr("ref_size"), rest |-> b]
+FullOf(e, i, coded) == IF i = 0 THEN ValOf(e)                               \* decodeFull: 16 references and a value
+                       ELSE LET x == RefOf(e, coded) IN IF ~x.r.ok THEN x.r ELSE FullOf(x.rest, i - 1, coded)
+NodeOf(b, coded) ==                                                         \* decodeNode
+  IF Len(b) = 0 THEN NErr("unexpected_eof")
+  ELSE LET sp == SplitOf(b) IN
+       IF ~sp.ok THEN NErr(sp.c) ELSE IF sp.kind # "list" THEN NErr("expected_list")
+       ELSE LET cn == CountOf(sp.content)
+                n  == IF cn.ok THEN cn.n ELSE 0                             \* the error of CountValues is dropped: "c, _ :="
+            IN IF n = 2 THEN ShortOf(sp.content, coded)
+               ELSE IF n = 17 THEN FullOf(sp.content, 16, coded)
+               ELSE NErr("element_count")
 
 (* ======================================================================= *)
 (* targets of the bounded model                                            *)
@@ -650,6 +705,72 @@ ObserveSeq(r) == << ObserveOne(r, "gI", "gA"), ObserveOne(r, "gI", "gV"), Observ
                     ObserveOne(r, "gE", "gA"), ObserveOne(r, "gE", "gV"), ObserveOne(r, "gE", "gB") >>
 
 (* ======================================================================= *)
+(* sizes mode: the arithmetic on size fields                                *)
+(* ======================================================================= *)
+\* A damaged database record or a crafted proof node: ONE header whose size field is chosen from the
+\* boundary lattice of the integer arithmetic a decoder performs on it (tagsize + size, len - tagsize,
+\* conversions to narrower or signed integers), followed by some bytes, alone or as an element of an
+\* otherwise well-formed trie node.  A size is kept as the byte string of the field, never as an integer
+\* (TLC's integers are 32 bit; the lattice reaches 2^64-1): the specification's arithmetic saturates
+\* (BEsat) or compares byte strings (LeqBE) and therefore cannot wrap.
+\*   form "str" | "list";  k = number of size bytes, 0 = short form (sb = <<size>>, size <= 55)
+HdrBytes(form, k, sb) == LET small == IF form = "list" THEN 192 ELSE 128 IN
+                         IF k = 0 THEN <<small + sb[1]>> ELSE <<small + 55 + k>> \o sb
+PadTo(k, b)  == Rep(k - Len(b), 0) \o b                       \* the value b as a k-byte field (leading zeros: not canonical)
+TopOf(k, d)  == Rep(k - 1, 255) \o <<255 - d>>                \* 2^(8k) - 1 - d
+SignOf(k)    == <<128>> \o Rep(k - 1, 0)                      \* 2^(8k-1): negative as a signed k-byte integer
+SignM1(k)    == <<127>> \o Rep(k - 1, 255)                    \* 2^(8k-1) - 1
+SmallSizes   == {0, 1, 2, 32, 33, 55, 56, 57, 255, 256}
+SizeLattice(k) ==
+  IF k = 0 THEN {<<n>> : n \in {0, 1, 2, 32, 33, 54, 55}}
+  ELSE {PadTo(k, BE(n)) : n \in {m \in SmallSizes : Len(BE(m)) <= k}}     \* 0, 1, 55, 56, the 1/2 byte boundary
+       \cup {PadTo(k, Rep(j, 255)) : j \in 1..k}                          \* 2^8j - 1 for every narrower width
+       \cup {TopOf(k, d) : d \in 0..9}                                    \* 2^8k - 10 .. 2^8k - 1: + tagsize wraps at this width
+       \cup {SignOf(k), SignM1(k)}
+ClaimSat(sb)   == BEsat(sb)
+\* sizes that an input of the bounded universe can actually hold (everything else only ever meets shorter inputs):
+\* up to 57, 255 and 256 (Wide: every canonical size up to 257, i.e. also 2^8-10 .. 2^8-2)
+HugeClaim(sb) == ~(ClaimSat(sb) <= 57 \/ (sb[1] # 0 /\ (ClaimSat(sb) \in {255, 256} \/ (Wide /\ ClaimSat(sb) <= 257))))
+\* how many bytes follow the header: around the claimed size where that is feasible, a few fixed lengths otherwise
+\* (a long-form size field with a leading zero is refused whatever follows: fewer lengths)
+RestLattice(k, sb) == IF k > 0 /\ sb[1] = 0 /\ ~Wide THEN {0, 1, 9}
+                      ELSE IF HugeClaim(sb) THEN {0, 1, 8, 9, 40}
+                      ELSE LET v == ClaimSat(sb) IN {n \in {0, 1, v - 1, v, v + 1} : n >= 0}
+FillBytes == {1, 128} \cup (IF Wide THEN {192} ELSE {})       \* what follows: single-byte items, empty strings, empty lists
+Contexts  == {"top", "elem", "leaf", "ext", "full0", "full16"}
+Embed(ctx, x) ==
+  CASE ctx = "top"    -> x                                    \* a stored value (state_object.go: ser.Split(enc)) or a whole record
+    [] ctx = "elem"   -> EncLst(x)                            \* the content of a well-formed list
+    [] ctx = "leaf"   -> EncLst(<<32>> \o x)                  \* trie short node with a terminated key: x is the value
+    [] ctx = "ext"    -> EncLst(<<0>> \o x)                   \* trie short node without terminator: x is the child reference
+    [] ctx = "full0"  -> EncLst(x \o Rep(16, 128))            \* trie full node: x is child 0 ...
+    [] ctx = "full16" -> EncLst(Rep(16, 128) \o x)            \* ... or the value slot
+\* exact comparison "size field <= n" on byte strings
+LeqBE(sb, n) == LET x == StripZ(sb)  y == BE(n) IN Len(x) < Len(y) \/ (Len(x) = Len(y) /\ ~SeqLess(y, x))
+\* THE specification of a header followed by `rest` bytes: an error unless the size is written canonically and fits
+SzFits(h) == IF h.k = 0 THEN h.sb[1] <= h.rest /\ ~(h.form = "str" /\ h.sb[1] = 1 /\ h.fill < 128)
+             ELSE h.sb[1] # 0 /\ ~LeqBE(h.sb, 55) /\ LeqBE(h.sb, h.rest)
+HdNone == [st |-> "none", form |-> "", k |-> 0, sb |-> <<>>, rest |-> 0, fill |-> 0, ctx |-> ""]
+SzLabel(h) ==
+  LET hb   == HdrBytes(h.form, h.k, h.sb)
+      item == hb \o Rep(h.rest, h.fill)
+      s    == Embed(h.ctx, item)
+      sp   == SplitOf(s)
+      cf   == CountFull(s)
+      ccf  == CountFull(sp.content)
+  IN [ op |-> "sz", form |-> h.form, k |-> h.k, sb |-> h.sb, rest |-> h.rest, fill |-> h.fill, ctx |-> h.ctx,
+       s |-> s, item |-> item,
+       fits   |-> SzFits(h),                  \* stated on the construction, independently of RawKind
+       isplit |-> SplitOf(item),              \* Split on the item alone
+       split  |-> sp,                         \* Split / SplitList / SplitString on the whole input
+       count  |-> [ok |-> cf.ok, n |-> cf.n, c |-> cf.c], steps |-> cf.steps,              \* CountValues(s)
+       ccount |-> IF sp.ok THEN [ok |-> ccf.ok, n |-> ccf.n, c |-> ccf.c] ELSE [ok |-> FALSE, n |-> 0, c |-> "n/a"],   \* CountValues(content)
+       csteps |-> IF sp.ok THEN ccf.steps ELSE 0,
+       node   |-> NodeOf(s, AsCoded),         \* trie.decodeNode(s) (VerifyProof with s as the proof node)
+       r  |-> Decode("any", s, FALSE), st |-> Decode("any", s, TRUE),                      \* the Stream decoder's twin checks
+       rr |-> Decode("raw", s, FALSE) ]
+
+(* ======================================================================= *)
 (* the state machine                                                       *)
 (* ======================================================================= *)
 VARIABLES tgt,   \* bytes mode: the target type the entry point was opened on ("" before Open)
@@ -657,11 +778,12 @@ VARIABLES tgt,   \* bytes mode: the target type the entry point was opened on ("
           ph,    \* bytes mode: "feeding" (input incomplete so far), "trailing" (a complete value was accepted), "done"
           cur,   \* values mode: <<target index, value index>>
           reg,   \* registry mode: names registered so far
+          hd,    \* sizes mode: the damaged record / proof node being composed (header form, size field, what follows, where it sits)
           last   \* label of the last step: the call, its arguments and everything it returned (output; hidden by the VIEW)
-vars == <<tgt, buf, ph, cur, reg, last>>
-View == <<tgt, buf, ph, cur, reg>>
+vars == <<tgt, buf, ph, cur, reg, hd, last>>
+View == <<tgt, buf, ph, cur, reg, hd>>
 
-Init == /\ tgt = "" /\ buf = <<>> /\ ph = "feeding" /\ cur = <<1, 0>> /\ reg = {} /\ last = [op |-> "init", s |-> <<>>]
+Init == /\ tgt = "" /\ buf = <<>> /\ ph = "feeding" /\ cur = <<1, 0>> /\ reg = {} /\ hd = HdNone /\ last = [op |-> "init", s |-> <<>>]
 
 DecLabel(t, chunks) ==
   LET s == Cat(chunks) IN
@@ -698,19 +820,19 @@ PhaseAfter(t, lbl) ==
        ELSE IF Decode(t, lbl.s \o Rep(TopOff(t) + cl - Len(lbl.s), PAD), FALSE).c = "pad" THEN "feeding"
        ELSE "doomed"
 CompletionLen(t, s) == IF ClaimOf(t, s) > 0 THEN TopOff(t) + ClaimOf(t, s) ELSE Len(s) + 8
-Open(t) == /\ Mode = "bytes" /\ tgt = "" /\ tgt' = t /\ UNCHANGED <<buf, cur, reg>>
+Open(t) == /\ Mode = "bytes" /\ tgt = "" /\ tgt' = t /\ UNCHANGED <<buf, cur, reg, hd>>
            /\ last' = DecLabel(t, <<>>) /\ ph' = PhaseAfter(t, last')
 Feed(ch) == /\ Mode = "bytes" /\ tgt # "" /\ ph = "feeding" /\ Len(buf) < MaxChunks(tgt)
             /\ Len(last.s) + Len(ch) <= MaxBytes(tgt)
-            /\ buf' = Append(buf, ch) /\ UNCHANGED <<tgt, cur, reg>>
+            /\ buf' = Append(buf, ch) /\ UNCHANGED <<tgt, cur, reg, hd>>
             /\ last' = DecLabel(tgt, buf') /\ ph' = PhaseAfter(tgt, last')
 \* a doomed prefix is completed with zero bytes to the length its header claims (8 more bytes if there
 \* is no complete header yet): the error must then show
 Complete == /\ Mode = "bytes" /\ tgt # "" /\ ph = "doomed"
-            /\ buf' = Append(buf, Rep(CompletionLen(tgt, last.s) - Len(last.s), 0)) /\ UNCHANGED <<tgt, cur, reg>>
+            /\ buf' = Append(buf, Rep(CompletionLen(tgt, last.s) - Len(last.s), 0)) /\ UNCHANGED <<tgt, cur, reg, hd>>
             /\ last' = DecLabel(tgt, buf') /\ ph' = "done"
 Trail(ch) == /\ Mode = "bytes" /\ tgt # "" /\ ph = "trailing"
-             /\ buf' = Append(buf, ch) /\ UNCHANGED <<tgt, cur, reg>>
+             /\ buf' = Append(buf, ch) /\ UNCHANGED <<tgt, cur, reg, hd>>
              /\ last' = DecLabel(tgt, buf') /\ ph' = "done"
 
 ValLabel(i, j) ==
@@ -719,13 +841,29 @@ ValLabel(i, j) ==
     r |-> Decode(t, enc, FALSE), st |-> Decode(t, enc, TRUE),
     muts |-> [x \in 1..Len(ms) |-> [m |-> ms[x].m, s |-> ms[x].s, r |-> Decode(t, ms[x].s, FALSE), st |-> Decode(t, ms[x].s, TRUE)]] ]
 NextValue ==
-  /\ Mode = "values" /\ UNCHANGED <<tgt, buf, ph, reg>>
+  /\ Mode = "values" /\ UNCHANGED <<tgt, buf, ph, reg, hd>>
   /\ LET i == cur[1]  j == cur[2] IN
      \/ /\ j < Len(ValTab[i]) /\ cur' = <<i, j + 1>> /\ last' = ValLabel(i, j + 1)
      \/ /\ j = Len(ValTab[i]) /\ i < Len(ValTargets) /\ cur' = <<i + 1, 1>> /\ last' = ValLabel(i + 1, 1)
 
-Register(x) == /\ Mode = "registry" /\ x \notin reg /\ reg' = reg \cup {x} /\ UNCHANGED <<tgt, buf, ph, cur>>
+Register(x) == /\ Mode = "registry" /\ x \notin reg /\ reg' = reg \cup {x} /\ UNCHANGED <<tgt, buf, ph, cur, hd>>
                /\ last' = [op |-> "register", x |-> x, obs |-> ObserveSeq(reg')]
+
+\* sizes mode: the writer of the damaged record picks a header form, a size field, what follows and where
+\* the item sits; the reader then calls every raw entry point on the result (label of the last step)
+SzStep == [op |-> "szstep", s |-> <<>>]
+SzForm(f, k) == /\ Mode = "sizes" /\ hd.st = "none" /\ UNCHANGED <<tgt, buf, ph, cur, reg>>
+                /\ hd' = [HdNone EXCEPT !.st = "form", !.form = f, !.k = k] /\ last' = SzStep
+SzSize(sb)   == /\ Mode = "sizes" /\ hd.st = "form" /\ UNCHANGED <<tgt, buf, ph, cur, reg>>
+                /\ hd' = [hd EXCEPT !.st = "size", !.sb = sb] /\ last' = SzStep
+SzRest(n, f) == /\ Mode = "sizes" /\ hd.st = "size" /\ UNCHANGED <<tgt, buf, ph, cur, reg>>
+                /\ hd' = [hd EXCEPT !.st = "rest", !.rest = n, !.fill = f] /\ last' = SzStep
+SzEmbed(ctx) == /\ Mode = "sizes" /\ hd.st = "rest" /\ UNCHANGED <<tgt, buf, ph, cur, reg>>
+                /\ hd' = [hd EXCEPT !.st = "done", !.ctx = ctx] /\ last' = SzLabel(hd')
+SzNext == \/ \E f \in {"str", "list"} \cap Targets, k \in 0..8 : SzForm(f, k)       \* Targets: the header forms explored by this run
+          \/ (hd.st = "form" /\ \E sb \in SizeLattice(hd.k) : SzSize(sb))
+          \/ (hd.st = "size" /\ \E n \in RestLattice(hd.k, hd.sb), f \in FillBytes : SzRest(n, f))
+          \/ \E ctx \in Contexts : SzEmbed(ctx)
 
 Next == \/ /\ Mode = "bytes"
            /\ \/ \E t \in Targets : Open(t)
@@ -734,6 +872,7 @@ Next == \/ /\ Mode = "bytes"
               \/ \E ch \in ({<<0>>} \cup (IF Len(last.s) <= 2 THEN {<<128>>} ELSE {})) : Trail(ch)
         \/ /\ Mode = "values" /\ NextValue
         \/ /\ Mode = "registry" /\ \E x \in RegNames : Register(x)
+        \/ /\ Mode = "sizes" /\ SzNext
 Spec == Init /\ [][Next]_vars
 
 (* ======================================================================= *)
@@ -762,6 +901,25 @@ SplitInv ==
      /\ last.count.ok /\ last.count.n = 1
      /\ last.r.v.t = "list" => LET cc == CountOf(last.split.content) IN cc.ok /\ cc.n = Len(last.r.v.e)
      /\ last.r.v.t = "str" => last.split.content = last.r.v.b
+
+\* sizes mode: whatever the size field says, every raw entry point returns a value or an error whose
+\* slices lie inside the input, CountValues ends after at most one iteration per input byte, and the
+\* verdict is "error unless the size is canonical and fits what follows"
+SizesInv ==
+  last.op = "sz" =>
+     /\ last.isplit.ok = last.fits
+     /\ last.isplit.ok => /\ LeqBE(last.sb, Len(last.isplit.content)) /\ Len(last.isplit.content) <= last.rest
+                          /\ SubSeq(last.item, 1, Len(last.item) - last.rest) \o last.isplit.content \o last.isplit.rest = last.item
+     /\ last.split.ok => LET hl == Len(last.s) - Len(last.split.content) - Len(last.split.rest) IN
+                         hl >= 0 /\ SubSeq(last.s, 1, hl) \o last.split.content \o last.split.rest = last.s
+     /\ RawProgress(last.s)
+     /\ last.steps <= Len(last.s) /\ last.csteps <= Len(last.s)
+     /\ last.count.ok => last.count.n >= 1
+     /\ last.node.c # "panic"
+     /\ last.node.ok => (last.split.ok /\ last.split.kind = "list" /\ last.ccount.ok /\ last.ccount.n \in {2, 17})
+     /\ NoCrashV(last.r) /\ NoCrashV(last.st) /\ NoCrashV(last.rr)
+     /\ CanonV("any", last.s, last.st) /\ AgreeV(last.st, last.r) /\ PlainStrictV("any", last.st, last.r)
+     /\ last.r.ok => (last.split.ok /\ last.split.rest = <<>> /\ last.count.ok /\ last.count.n = 1)
 
 \* decode(encode(v)) = v, by both decoders; encodings are pairwise different; every mutation obeys the bytes invariants
 RoundTrip == last.op = "val" => /\ last.r.ok /\ last.r.v = last.v
@@ -795,6 +953,10 @@ Compact(l) ==
   ELSE IF l.op = "val" THEN
        [op |-> "val", tgt |-> l.tgt, idx |-> l.idx, v |-> l.v, s |-> l.s, r |-> CVd(l.r), st |-> CSt(l.st),
         muts |-> [x \in 1..Len(l.muts) |-> [m |-> l.muts[x].m, s |-> l.muts[x].s, r |-> CVd(l.muts[x].r), st |-> CSt(l.muts[x].st)]]]
+  ELSE IF l.op = "sz" THEN
+       [op |-> "sz", form |-> l.form, k |-> l.k, sb |-> l.sb, rest |-> l.rest, fill |-> l.fill, ctx |-> l.ctx, s |-> l.s,
+        split |-> l.split, count |-> l.count, steps |-> l.steps, ccount |-> l.ccount, node |-> l.node,
+        r |-> CVd(l.r), st |-> CSt(l.st), rr |-> CVd(l.rr)]
   ELSE l
 Emit == PrintT(ToJson(Compact(last')))
 RegEdge == PrintT(ToJson([from |-> [reg |-> reg], act |-> last', to |-> [reg |-> reg']]))
